@@ -67,8 +67,11 @@ def exc_tag(ex):
 class World:
     """every socket object the code under test ever obtained, in creation order"""
 
-    def __init__(self):
+    def __init__(self, strict_peer=False):
         self.socks = []
+        # strict_peer: getpeername()/shutdown() on a socket that has seen a hard fault raise ENOTCONN, as a reset
+        # socket does (used by the server-level runs; the connection-level runs keep scripts independent of it)
+        self.strict_peer = strict_peer
 
     def new(self, **kw):
         s = FakeSock(self, len(self.socks), **kw)
@@ -101,6 +104,7 @@ class FakeSock:
         self.closed = False
         self.shut = False
         self.broken = False
+        self.hards = []           # codes of the hard (not would-block) faults this socket has raised
         self.kacc = bytearray()   # bytes the kernel accepted from send()
         self.kdel = bytearray()   # bytes recv() delivered
         self.calls = []           # ("send"|"recv"|"hs", outcome)
@@ -132,7 +136,7 @@ class FakeSock:
 
     def getpeername(self):
         self._chk()
-        if self.broken or self.ca is None:
+        if (self.broken and self.world.strict_peer) or self.ca is None:
             raise OSError(errno.ENOTCONN, os.strerror(errno.ENOTCONN))
         return self.ca
 
@@ -152,7 +156,7 @@ class FakeSock:
 
     def shutdown(self, how):
         self._chk()
-        if self.broken:
+        if self.broken and self.world.strict_peer:
             raise OSError(errno.ENOTCONN, os.strerror(errno.ENOTCONN))
         self.shut = True
 
@@ -201,8 +205,9 @@ class FakeSock:
         self._fault(r[1])
 
     def _fault(self, code):
-        if code not in (EAGAIN, WANT_READ, WANT_WRITE, errno.EINTR):
+        if code not in ((WANT_READ, WANT_WRITE) if self.tls else (EAGAIN,)):
             self.broken = True
+            self.hards.append(code)
         raise make_exc(code)
 
     def accept(self):
@@ -422,7 +427,7 @@ def _status(fn):
     return "ok"
 
 
-def run_conn(case):
+def run_conn(case, with_hards=False):
     """case = (kind, wl, ops, sends, recvs); ops: ("tx", bytes) | ("ss",) | ("sr",) | ("svc",)
     observation = (steps, final): steps[i] = (status, |kacc|, |txbs|, |rxbs|, cutoff),
     final = (txbs, rxbs, kacc, kdel, wireTx|None, wireRx|None, cutoff)"""
@@ -431,6 +436,7 @@ def run_conn(case):
     try:
         obj, s = make_conn(kind, sends, recvs, [("ok",)] if is_tls(kind) else [], wl=wl)
         steps = []
+        hards_at = []
         for op in ops:
             if op[0] == "tx":
                 st = _status(lambda: obj.tx(op[1]))
@@ -449,8 +455,11 @@ def run_conn(case):
             else:
                 raise core.Infra(f"bad op {op!r}")
             steps.append((st, len(s.kacc), len(obj.txbs), len(obj.rxbs), bool(obj.cutoff)))
+            hards_at.append(tuple(s.hards))
         wt, wr = wl_read(wl) if wl else (None, None)
         final = (bytes(obj.txbs), bytes(obj.rxbs), bytes(s.kacc), bytes(s.kdel), wt, wr, bool(obj.cutoff))
+        if with_hards:
+            return (tuple(steps), final, tuple(hards_at))
         return (tuple(steps), final)
     finally:
         if wl:
@@ -475,7 +484,7 @@ def run_server(case):
        ("listen", closed) | (where, cutoff, connected, aborted, rxbs, |txbs|, kacc, closed), where in ix|cx|gone"""
     tls, ops = case
     clienting, serving, TClientTls, TRemoterTls = classes()
-    world = World()
+    world = World(strict_peer=True)
     rms = {}
 
     mod = _SockMod(world, tls=tls, ha=None)
@@ -534,7 +543,7 @@ def run_server(case):
                     continue
                 rm = rms.get(s.sid)
                 if rm is None:   # created and replaced within one service pass: never seen in a table
-                    snap.append(("gone", False, False, False, b"", 0, bytes(s.kacc), s.closed))
+                    snap.append(("gone", False, False, False, b"", 0, bytes(s.kacc), s.closed, tuple(s.hards)))
                     continue
                 where = "gone"
                 if any(v is rm for v in server.ixes.values()):
@@ -542,7 +551,7 @@ def run_server(case):
                 elif tls and any(v is rm for v in server.cxes.values()):
                     where = "cx"
                 snap.append((where, bool(rm.cutoff), bool(getattr(rm, "connected", True)), bool(getattr(rm, "aborted", False)),
-                             bytes(rm.rxbs), len(rm.txbs), bytes(s.kacc), s.closed))
+                             bytes(rm.rxbs), len(rm.txbs), bytes(s.kacc), s.closed, tuple(s.hards)))
             out.append((st, tuple(snap)))
     return (st0, tuple(out))
 
@@ -581,10 +590,8 @@ def run_client(case):
                 st = _status(obj.close)
             elif k == "connect":
                 nxt["rc"] = op[1]
-                if tls and obj.cs is not None and len(op) > 2 and op[2] is not None:
+                if obj.cs is not None and len(op) > 2 and op[2] is not None:
                     obj.cs.hs.append(tuple(op[2]))
-                elif tls and obj.cs is None and len(op) > 2 and op[2] is not None:
-                    nxt["hs"] = tuple(op[2])
                 st = _status(obj.serviceConnect)
             else:
                 raise core.Infra(f"bad op {op!r}")
@@ -648,10 +655,13 @@ def run_idle(case):
                         if x.ca == _ca(op[1]):
                             s = conns[op[1]] = x
                 if s is not None and not s.closed:
-                    s.recvs.append(("d", b"a" * op[2]) if k == "data" else ("d", REQ_FULL11))
-                    if k == "data" and not getattr(s, "started", False):
-                        s.started = True
-                        s.recvs[-1] = ("d", REQ_HEAD + b"a" * op[2])
+                    inhead = getattr(s, "inhead", False)
+                    if k == "data":
+                        s.recvs.append(("d", (b"" if inhead else REQ_HEAD) + b"a" * op[2]))
+                        s.inhead = True
+                    else:   # complete the request that is under way, or send a whole one
+                        s.recvs.append(("d", b"\r\nContent-Length: 0\r\n\r\n" if inhead else REQ_FULL11))
+                        s.inhead = False
             elif k == "svc":
                 st = _status(server.service)
             else:
@@ -669,3 +679,608 @@ def run_idle(case):
             out.append((st, tuple(snap)))
         server.close()
     return tuple(out)
+
+
+# --------------------------------------------------------------------------
+# generators shared by C09 / C10 / C11
+
+def gen_bytes(rng, n):
+    return bytes(rng.randrange(256) for _ in range(n)) if n < 64 else rng.randbytes(n)
+
+
+def gen_fault_code(rng, kind, flavour=None):
+    """a fault code; flavour: None = any mix"""
+    f = flavour or rng.choice(["wb", "wb", "conn", "conn", "conn", "epipe", "otherfamily", "any", "ssl"])
+    if f == "wb":
+        return rng.choice(wouldblock_codes(kind))
+    if f == "conn":
+        return rng.choice(conn_fault_codes(kind))
+    if f == "epipe":
+        return EPIPE
+    if f == "otherfamily":   # the would-block code of the other family: EAGAIN on TLS, want-read on plain
+        return rng.choice([EAGAIN] if is_tls(kind) else [WANT_READ, WANT_WRITE, 2, 3])
+    if f == "ssl":
+        return rng.choice(sorted(SSL_CODES))
+    return rng.choice(ALL_CODES)
+
+
+def gen_sends(rng, kind, n, total, fault_p=0.15, flavour=None):
+    out = []
+    style = rng.choice(["all", "dribble", "zeros", "mixed", "mixed", "half"])
+    for _ in range(n):
+        if rng.random() < fault_p:
+            out.append(("f", gen_fault_code(rng, kind, flavour)))
+            continue
+        if style == "all":
+            k = 1 << 30
+        elif style == "dribble":
+            k = 1
+        elif style == "zeros":
+            k = 0 if rng.random() < 0.6 else rng.randrange(0, 4)
+        elif style == "half":
+            k = max(1, total // 2)
+        else:
+            k = rng.choice([0, 1, 2, 3, 7, 8, 1 << 30, rng.randrange(0, max(2, total + 2))])
+        out.append(("acc", k))
+    return out
+
+
+def gen_recvs(rng, kind, n, fault_p=0.15, flavour=None, big=False):
+    out = []
+    for _ in range(n):
+        r = rng.random()
+        if r < fault_p:
+            out.append(("f", gen_fault_code(rng, kind, flavour)))
+        elif r < fault_p + 0.05:
+            out.append(("d", b""))
+        else:
+            ln = rng.choice([1, 1, 2, 3, 5, 8, 16, rng.randrange(1, 40)])
+            if big and rng.random() < 0.2:
+                ln = rng.choice([8096, 8097, 65536])
+            out.append(("d", gen_bytes(rng, ln)))
+    return out
+
+
+def strip_hard(obs):
+    """server observation without the environment-side `hard fault` column (the model does not predict it)"""
+    st0, steps = obs
+    return (st0, tuple((st, tuple(e if e[0] == "listen" else e[:-1] for e in snap)) for st, snap in steps))
+
+
+def hard_codes_of_script(kind, script):
+    wb = set(wouldblock_codes(kind))
+    return [r[1] for r in script if r[0] == "f" and r[1] not in wb]
+
+
+def gen_server_ops(rng, tls, focus, tier="quick"):
+    """focus 'fault': accept/service/transmit with faults at random call indices on one or more of several connections;
+    focus 'life': adds removeIx, close, reopen, same-address replacement, handshakes left pending"""
+    kind = "remotertls" if tls else "remoter"
+    ops = []
+    ncas = rng.choice([1, 2, 2, 3, 4])
+    live = []
+    nsteps = rng.randrange(3, 14)
+    faulty = set(rng.sample(range(1, ncas + 1), k=rng.randrange(0, ncas + 1))) if focus == "fault" else set()
+    flav = rng.choice(["conn", "conn", "conn", None, "epipe"])
+
+    def mkconn(ca):
+        fp = 0.0
+        if focus == "fault" and ca in faulty:
+            fp = rng.choice([0.15, 0.3, 0.6])
+        elif focus == "life":
+            fp = rng.choice([0.0, 0.0, 0.1])
+        sends = gen_sends(rng, kind, rng.randrange(0, 6), 8, fault_p=fp, flavour=flav)
+        recvs = gen_recvs(rng, kind, rng.randrange(0, 6), fault_p=fp, flavour=flav)
+        hs = []
+        if tls:
+            m = rng.random()
+            for _ in range(rng.randrange(0, 3)):
+                hs.append(("f", rng.choice([WANT_READ, WANT_WRITE])))
+            if m < 0.6:
+                hs.append(("ok",))
+            elif m < 0.8:
+                hs.append(("f", rng.choice(conn_fault_codes(kind) + [errno.ECONNABORTED, 1001, 1005, 1010]) if (ca in faulty or focus == "life") else WANT_READ))
+                if hs[-1] == ("f", WANT_READ):
+                    hs.append(("ok",))
+            # else: stays pending for ever
+        return ("conn", ca, sends, recvs, hs)
+    for ca in range(1, ncas + 1):
+        if rng.random() < 0.8:
+            ops.append(mkconn(ca))
+            live.append(ca)
+    ops.append(("svc",))
+    for _ in range(nsteps):
+        r = rng.random()
+        if r < 0.45:
+            ops.append(("svc",))
+        elif r < 0.7 and ncas:
+            ops.append(("tx", rng.randrange(1, ncas + 1), gen_bytes(rng, rng.choice([0, 1, 3, 8, 20]))))
+        elif r < 0.85:
+            ca = rng.randrange(1, ncas + 1)   # a new peer, possibly from an address already connected
+            ops.append(mkconn(ca))
+        elif focus == "life":
+            k = rng.random()
+            if k < 0.4:
+                ops.append(("rm", rng.randrange(1, ncas + 1)))
+            elif k < 0.6:
+                ops.append(("close",))
+            elif k < 0.8:
+                ops.append(("reopen",))
+            else:
+                ca = rng.randrange(1, ncas + 1)
+                ops.append(mkconn(ca))
+                ops.append(mkconn(ca))
+        else:
+            ops.append(("svc",))
+    if focus == "life":
+        ops.append(("close",))
+    return ops
+
+
+def request_server(case_ops):
+    out = []
+    for op in case_ops:
+        if op[0] == "conn":
+            out.append(("conn", op[1], [tuple(x) for x in op[2]], [tuple(x) for x in op[3]], [tuple(x) for x in op[4]]))
+        else:
+            out.append(tuple(op))
+    return out
+
+
+# --------------------------------------------------------------------------
+# real loopback sockets (no fakes): streams with tiny buffers (C09), peer close / RST (C10), descriptor accounting (C11),
+# idle timeout seen from the peer (C12).  No wall-clock sleeps: bounded service loops, select() only to wait for the
+# kernel to hand over bytes that have already been sent.  Port clashes and descriptor exhaustion are infrastructure.
+import gc
+import select
+import struct
+import time as _time
+
+INFRA_ERRNOS = (errno.EADDRINUSE, errno.EADDRNOTAVAIL, errno.EMFILE, errno.ENFILE, errno.ENOBUFS, errno.ENOMEM)
+
+
+class Retry(Exception):
+    pass
+
+
+def free_port():
+    s = _socket.socket(_socket.AF_INET, _socket.SOCK_STREAM)
+    try:
+        s.bind(("127.0.0.1", 0))
+        return s.getsockname()[1]
+    finally:
+        s.close()
+
+
+def with_retries(fn, tries=4):
+    last = None
+    for _ in range(tries):
+        try:
+            return fn()
+        except Retry as ex:
+            last = ex
+    raise core.Infra(f"real-socket scenario could not get its ports/descriptors: {last}")
+
+
+def cert_paths():
+    d = os.path.join(core.REPO, "tests", "core", "tcp", "certs")
+    p = {k: os.path.join(d, v) for k, v in dict(skey="server_key.pem", scert="server_cert.pem", cca="client.pem",
+                                                ckey="client_key.pem", ccert="client_cert.pem", sca="server.pem").items()}
+    for v in p.values():
+        if not os.path.exists(v):
+            raise core.Infra(f"certificate file missing: {v}")
+    return p
+
+
+def open_real_server(tls, wl=None, tymth=None, cls=None, **kw):
+    """a listening tcp.Server/ServerTls on a free loopback port (retry on clashes)"""
+    from hio.core.tcp import serving
+    for _ in range(6):
+        port = free_port()
+        if tls:
+            c = cert_paths()
+            server = (cls or serving.ServerTls)(host="127.0.0.1", port=port, wl=wl, tymth=tymth, keypath=c["skey"], certpath=c["scert"],
+                                                cafilepath=c["cca"], certify=ssl.CERT_NONE, **kw)
+        else:
+            server = (cls or serving.Server)(host="127.0.0.1", port=port, wl=wl, tymth=tymth, **kw)
+        if server.reopen():
+            return server, port
+        server.close()
+    raise Retry("no free port for the server")
+
+
+def raw_peer(port, lport=None):
+    s = _socket.socket(_socket.AF_INET, _socket.SOCK_STREAM)
+    try:
+        s.setsockopt(_socket.SOL_SOCKET, _socket.SO_REUSEADDR, 1)
+        if lport:
+            s.bind(("127.0.0.1", lport))
+        s.settimeout(3.0)
+        s.connect(("127.0.0.1", port))
+        s.setblocking(False)
+    except OSError as ex:
+        s.close()
+        if ex.errno in INFRA_ERRNOS or isinstance(ex, TimeoutError):
+            raise Retry(str(ex))
+        raise
+    return s
+
+
+def rst_close(s):
+    try:
+        s.setsockopt(_socket.SOL_SOCKET, _socket.SO_LINGER, struct.pack("ii", 1, 0))
+    except OSError:
+        pass
+    s.close()
+
+
+def wait_readable(sock, timeout=2.0):
+    try:
+        r, _, _ = select.select([sock], [], [], timeout)
+    except (OSError, ValueError):
+        return False
+    return bool(r)
+
+
+def run_real_stream(case):
+    """C09. case = ("real", tls, direction 'c2s'|'s2c', sizes, sndbuf, reader_every, seed)
+    observation = (connected, prefix_always, delivered_all, sender_wire_ok, receiver_wire_ok, total)"""
+    _, tls, direction, sizes, sndbuf, reader_every, seed = case
+    import random
+    rng = random.Random(seed)
+    payloads = [rng.randbytes(n) for n in sizes]
+
+    def go():
+        from hio.core.tcp import clienting
+        wls, wlc = make_wl(), make_wl()
+        server = client = None
+        try:
+            server, port = open_real_server(tls, wl=wls)
+            server.ss.setsockopt(_socket.SOL_SOCKET, _socket.SO_RCVBUF, sndbuf)
+            server.ss.setsockopt(_socket.SOL_SOCKET, _socket.SO_SNDBUF, sndbuf)
+            if tls:
+                c = cert_paths()
+                client = clienting.ClientTls(ha=("127.0.0.1", port), wl=wlc, certedhost="localhost", keypath=c["ckey"], certpath=c["ccert"],
+                                             cafilepath=c["sca"], certify=ssl.CERT_NONE, hostify=False)
+            else:
+                client = clienting.Client(ha=("127.0.0.1", port), wl=wlc)
+            client.reopen()
+            client.cs.setsockopt(_socket.SOL_SOCKET, _socket.SO_SNDBUF, sndbuf)
+            client.cs.setsockopt(_socket.SOL_SOCKET, _socket.SO_RCVBUF, sndbuf)
+            for _ in range(20000):
+                client.serviceConnect()
+                server.serviceConnects()
+                if client.connected and server.ixes:
+                    break
+            if not (client.connected and server.ixes):
+                return (False, True, False, True, True, 0)
+            ix = list(server.ixes.values())[0]
+            snd, rcv, wsnd, wrcv = (client, ix, wlc, wls) if direction == "c2s" else (ix, client, wls, wlc)
+            sent = b""
+            prefix_ok = True
+            it = 0
+
+            def pump(n):
+                nonlocal it, prefix_ok
+                for _ in range(n):
+                    it += 1
+                    snd.serviceSends()
+                    if it % reader_every == 0:
+                        rcv.serviceReceives()
+                        if not sent.startswith(bytes(rcv.rxbs)):
+                            prefix_ok = False
+            for p in payloads:
+                snd.tx(p)
+                sent += p
+                pump(rng.randrange(0, 6))
+            last, stall_t = -1, _time.time()
+            while len(rcv.rxbs) < len(sent):
+                pump(50)
+                rcv.serviceReceives()
+                if len(rcv.rxbs) != last:
+                    last, stall_t = len(rcv.rxbs), _time.time()
+                elif _time.time() - stall_t > 5.0:
+                    break
+                if snd.cutoff or rcv.cutoff:
+                    break
+            got = bytes(rcv.rxbs)
+            if not sent.startswith(got):
+                prefix_ok = False
+            wt, _ = wl_read(wsnd)
+            _, wr = wl_read(wrcv)
+            return (True, prefix_ok, got == sent, wt == sent[:len(wt)] and len(wt) + len(snd.txbs) == len(sent), wr == got, len(sent))
+        except OSError as ex:
+            if ex.errno in INFRA_ERRNOS:
+                raise Retry(str(ex))
+            raise
+        finally:
+            if client:
+                client.close()
+            if server:
+                server.close()
+            wls.close()
+            wlc.close()
+    return with_retries(go)
+
+
+def run_real_faults(case):
+    """C10. case = ("realsrv", tls, how 'rst'|'fin', point, nmsg): two raw peers talk to an echoing server; peer 0 dies
+    (`how`) after `point` messages; the server keeps being serviced.  For TLS the peers never handshake, peer 0 dies with the
+    handshake pending.  observation = (raised, victim_marked, sibling_ok)"""
+    _, tls, how, point, nmsg = case
+
+    def go():
+        server = None
+        peers = []
+        try:
+            server, port = open_real_server(tls)
+            peers = [raw_peer(port), raw_peer(port)]
+            cas = [p.getsockname() for p in peers]
+            raised = False
+            echoed = [b"", b""]
+            sentb = [b"", b""]
+
+            def svc(n=3):
+                nonlocal raised
+                for _ in range(n):
+                    try:
+                        server.service()
+                    except BaseException:
+                        raised = True
+                    for ca, ixr in list(server.ixes.items()):
+                        if ixr.rxbs:
+                            ixr.tx(bytes(ixr.rxbs))
+                            ixr.clearRxbs()
+            svc()
+            dead = False
+            for m in range(nmsg):
+                if m == point and not dead:
+                    (rst_close if how == "rst" else _socket.socket.close)(peers[0])
+                    dead = True
+                for i, p in enumerate(peers):
+                    if i == 0 and dead:
+                        continue
+                    if tls:
+                        continue
+                    msg = bytes([65 + i]) * (m + 1)
+                    p.send(msg)
+                    sentb[i] += msg
+                    sx = server.ixes.get(cas[i])
+                    if sx is not None and sx.cs is not None:
+                        wait_readable(sx.cs)
+                svc()
+                for i, p in enumerate(peers):
+                    if i == 0 and dead:
+                        continue
+                    if len(echoed[i]) < len(sentb[i]) and wait_readable(p, 1.0):
+                        try:
+                            echoed[i] += p.recv(65536)
+                        except BlockingIOError:
+                            pass
+            if not dead:
+                (rst_close if how == "rst" else _socket.socket.close)(peers[0])
+            # let the server notice: the victim's socket becomes readable (EOF / RST)
+            v = server.ixes.get(cas[0]) or (server.cxes.get(cas[0]) if tls else None)
+            if v is not None and v.cs is not None:
+                wait_readable(v.cs)
+            svc(4)
+            if tls:
+                marked = cas[0] not in server.cxes and cas[0] not in server.ixes
+                sibling_ok = cas[1] in server.cxes
+            else:
+                vix = server.ixes.get(cas[0])
+                marked = vix is None or bool(vix.cutoff)
+                for _ in range(3):
+                    if len(echoed[1]) < len(sentb[1]) and wait_readable(peers[1], 1.0):
+                        try:
+                            echoed[1] += peers[1].recv(65536)
+                        except BlockingIOError:
+                            pass
+                    svc(1)
+                six = server.ixes.get(cas[1])
+                sibling_ok = six is not None and not six.cutoff and echoed[1] == sentb[1]
+            return (raised, marked, sibling_ok)
+        except OSError as ex:
+            if ex.errno in INFRA_ERRNOS:
+                raise Retry(str(ex))
+            raise
+        finally:
+            for p in peers:
+                try:
+                    p.close()
+                except OSError:
+                    pass
+            if server:
+                server.close()
+    return with_retries(go)
+
+
+def run_real_life(case):
+    """C11. case = ("real", tls, ops); ops: ("peer", slot) a raw peer connects from local port slot `slot` (same slot again =
+    same address: the old peer is reset first) | ("svc",) | ("drop", slot) peer resets | ("close",) | ("reopen",)
+    The harness keeps a reference to every socket object the server obtained (so the GC cannot close anything).
+    observation per close/reopen op: (number of sockets obtained so far, how many are still open); last entry: descriptor delta"""
+    _, tls, ops = case
+
+    def go():
+        from hio.core.tcp import serving
+        seen = []
+        orig_init = serving.Remoter.__init__
+        orig_wrap = serving.RemoterTls.wrap
+        orig_open = serving.Acceptor.open
+
+        def init(self, *a, **kw):
+            orig_init(self, *a, **kw)
+            if self.cs is not None:
+                seen.append(self.cs)
+
+        def wrap(self):
+            orig_wrap(self)
+            seen.append(self.cs)
+
+        def aopen(self):
+            r = orig_open(self)
+            if self.ss is not None:
+                seen.append(self.ss)
+            return r
+        gc.collect()
+        fd0 = len(os.listdir("/proc/self/fd"))
+        server = None
+        peers = {}
+        out = []
+        try:
+            with patched(serving.Remoter, __init__=init), patched(serving.RemoterTls, wrap=wrap), patched(serving.Acceptor, open=aopen):
+                server, port = open_real_server(tls)
+                slots = {}
+                for op in ops:
+                    k = op[0]
+                    if k == "peer":
+                        if op[1] in peers:
+                            rst_close(peers.pop(op[1]))
+                        if op[1] not in slots:
+                            slots[op[1]] = free_port()
+                        if server.opened:
+                            peers[op[1]] = raw_peer(server.ha[1], slots[op[1]])
+                    elif k == "drop":
+                        if op[1] in peers:
+                            rst_close(peers.pop(op[1]))
+                    elif k == "svc":
+                        if server.opened:
+                            try:
+                                server.service()
+                            except OSError:
+                                pass
+                    elif k == "close":
+                        server.close()
+                        out.append((len(seen), sum(1 for s in seen if s.fileno() != -1)))
+                    elif k == "reopen":
+                        if not server.reopen():
+                            raise Retry("reopen could not bind")
+                        out.append((len(seen), sum(1 for s in seen[:-1] if s.fileno() != -1)))
+                    else:
+                        raise core.Infra(f"bad op {op!r}")
+                server.close()
+                out.append((len(seen), sum(1 for s in seen if s.fileno() != -1)))
+            for p in peers.values():
+                p.close()
+            peers.clear()
+            nleft = sum(1 for s in seen if s.fileno() != -1)
+            gc.collect()
+            fd1 = len(os.listdir("/proc/self/fd"))
+            out.append(("fds", max(0, fd1 - fd0), nleft))
+            return tuple(out)
+        except OSError as ex:
+            if ex.errno in INFRA_ERRNOS:
+                raise Retry(str(ex))
+            raise
+        finally:
+            for p in peers.values():
+                try:
+                    p.close()
+                except OSError:
+                    pass
+            if server:
+                server.close()
+            for s in seen:   # do not leak into the next case whatever the code under test did
+                try:
+                    s.close()
+                except OSError:
+                    pass
+    return with_retries(go)
+
+
+def run_real_idle(case):
+    """C12 over real loopback sockets (plain): same case format and observation as run_idle; `open` means the PEER has not
+    seen EOF and the server still lists the connection"""
+    tls, tymeout, ops = case
+
+    def go():
+        from hio.base import tyming
+        from hio.core.http import serving as hserving
+        tymist = tyming.Tymist(tyme=0.0, tock=UNIT)
+        server = None
+        peers = {}
+        eof = {}
+        inhead = {}
+        order = []
+        out = []
+        try:
+            for _ in range(6):
+                port = free_port()
+                server = hserving.Server(host="127.0.0.1", port=port, app=_app, tymeout=tymeout * UNIT)
+                server.wind(tymist.tymen())
+                if server.reopen():
+                    break
+                server.close()
+                server = None
+            if server is None:
+                raise Retry("no free port for the http server")
+            for op in ops:
+                k = op[0]
+                st = "ok"
+                if k == "conn":
+                    peers[op[1]] = raw_peer(port)
+                    eof[op[1]] = False
+                    order.append(op[1])
+                elif k == "tick":
+                    tymist.tick(tock=op[1] * UNIT)
+                elif k in ("data", "req"):
+                    p = peers.get(op[1])
+                    ca = p.getsockname() if p is not None and not eof[op[1]] else None
+                    if ca is not None and ca in server.servant.ixes:
+                        ih = inhead.get(op[1], False)
+                        msg = ((b"" if ih else REQ_HEAD) + b"a" * op[2]) if k == "data" else (b"\r\nContent-Length: 0\r\n\r\n" if ih else REQ_FULL11)
+                        inhead[op[1]] = (k == "data")
+                        try:
+                            p.send(msg)
+                            wait_readable(server.servant.ixes[ca].cs)
+                        except (BrokenPipeError, ConnectionResetError):
+                            pass
+                elif k == "svc":
+                    st = _status(server.service)
+                snap = []
+                for ca_i in order:
+                    p = peers[ca_i]
+                    listed = p.getsockname() in server.servant.ixes if not eof[ca_i] else False
+                    if not eof[ca_i] and not listed and ca_i in seen_listed:
+                        # the server dropped it: the peer must see EOF (bytes of a response may come first)
+                        for _ in range(8):
+                            if not wait_readable(p, 1.0):
+                                break
+                            try:
+                                d = p.recv(65536)
+                            except BlockingIOError:
+                                continue
+                            except ConnectionResetError:
+                                d = b""
+                            if not d:
+                                eof[ca_i] = True
+                                break
+                    if listed:
+                        seen_listed.add(ca_i)
+                    if ca_i not in seen_listed:
+                        snap.append("pending")
+                    elif listed:
+                        snap.append("open")
+                    else:
+                        snap.append("closed" if eof[ca_i] else "dropped-but-socket-open")
+                out.append((st, tuple(snap)))
+            return tuple(out)
+        except OSError as ex:
+            if ex.errno in INFRA_ERRNOS:
+                raise Retry(str(ex))
+            raise
+        finally:
+            for p in peers.values():
+                try:
+                    p.close()
+                except OSError:
+                    pass
+            if server:
+                server.close()
+    seen_listed = set()
+
+    def wrapped():
+        seen_listed.clear()
+        return go()
+    return with_retries(wrapped)
